@@ -360,15 +360,20 @@ class Session:
             n = next(self.counter)
             self.dv.value = n
             # the id forms the API accepts: plain numbers and members of the library's CollectionEventId enumeration
-            form = rng.choice(["[50]", "[50]", "[enum 21, 50]", "[50, enum 21]", "[21]", "[enum 21]"])
+            # ... and lists in which an id nobody subscribed to (a defined event without link, an unknown number) stands next to
+            # subscribed ones: the unsubscribed one is not reported, the others are
+            form = rng.choice(["[50]", "[50]", "[enum 21, 50]", "[50, enum 21]", "[21]", "[enum 21]", "[enum 20, 50]", "[7777, 50, 21]", "[50, 7777]"])
             ids = {"[50]": [50], "[enum 21, 50]": [CollectionEventId.CMD_STOP_DONE, 50], "[50, enum 21]": [50, CollectionEventId.CMD_STOP_DONE],
-                   "[21]": [21], "[enum 21]": [CollectionEventId.CMD_STOP_DONE]}[form]
+                   "[21]": [21], "[enum 21]": [CollectionEventId.CMD_STOP_DONE], "[enum 20, 50]": [CollectionEventId.CMD_START_DONE, 50],
+                   "[7777, 50, 21]": [7777, 50, 21], "[50, 7777]": [50, 7777]}[form]
             self.hist.append(f"trigger({form}) counter={n}")
             plain = [i.value if isinstance(i, CollectionEventId) else i for i in ids]
             linked = [c for c in plain if c in eq.registered_collection_events and eq.registered_collection_events[c].enabled]
             eq.trigger_collection_events(ids)
             if "enum" in form:
                 self.ctx.count("oracle.events_triggered_by_enum_id")
+            if len(linked) < len(plain) and linked:
+                self.ctx.count("oracle.events_triggered_next_to_unsubscribed_ids")
             for c in linked:
                 self.triggered.append((c, n))
             if linked:
